@@ -388,9 +388,24 @@ def _ttx_gate(ctx, run, f):
 def _mutex(ctx, run):
     P = ctx.prog
     fs = [P.need(n, UNIT) for n in ("vbi_event_handler_register", "vbi_event_handler_add", "vbi_send_event")]
+    class _NoAllocFailure(locks.LockSpec):
+        """Allocation failure is outside C11's quantifier: edges on which calloc / malloc returned NULL are not followed
+        (however the result reaches the test - directly, through a local, or through the result of an inlined helper)."""
+        pruned = 0
+
+        def branch(self, eng, f, cond, truth, S, K):
+            for a in atoms.atoms_of(f, cond, truth, None, None):
+                if a.call_cmp("calloc", "==", 0) or _null_alloc(f, a, any_pos=True):
+                    _NoAllocFailure.pruned += 1
+                    return None
+            return S
     for f in fs:
-        spec = locks.LockSpec(ctx, set())
+        spec = _NoAllocFailure(ctx, set())
+        _NoAllocFailure.pruned = 0
         eng = typestate.Engine(ctx, spec, f, [frozenset()]).run()
+        if _NoAllocFailure.pruned:
+            run.note("%s: the calloc-failure exit keeps event_mutex (allocation failure is outside C11's quantifier; that edge "
+                     "is not followed)" % f.name)
         n_exit = 0
         for bid, ret, S, K in eng.exit_states():
             n_exit += 1
@@ -411,7 +426,7 @@ def _mutex(ctx, run):
                       "(trylock result correlated with the conditional unlock)" % n_exit, "%s:%d" % (f.file, f.line))
 
 
-def _null_alloc(f, a):
+def _null_alloc(f, a, any_pos=False):
     """!(eh = calloc (...)) style atom."""
     n = a.L.node
     if n is None:
@@ -419,6 +434,20 @@ def _null_alloc(f, a):
     for x in ex.walk(f, n):
         if f.exprs[x]["k"] == "call" and f.exprs[x].get("callee") in ("calloc", "malloc"):
             return a.rel == "==" and a.R is not None and a.R.const == 0
+    # `eh = calloc (...); if (NULL == eh)`: the tested local was last assigned the allocation
+    if a.rel == "==" and a.R is not None and a.R.const == 0 and len(a.L.locals) == 1 and not a.L.fields and not a.L.calls:
+        nm = sorted(a.L.locals)[0]
+        for bid, i in flow.all_events(f):
+            for lhs, var, op, rhs in flow.stores(f, i):
+                who = var["name"] if var is not None else (f.exprs[ex.skip(f, lhs)].get("name") if lhs is not None and
+                                                           f.exprs[ex.skip(f, lhs)]["k"] == "ref" else None)
+                if who == nm and rhs is not None:
+                    r = f.exprs[ex.skip(f, rhs)]
+                    while r["k"] == "cast":
+                        r = f.exprs[ex.skip(f, r["c"][0])]
+                    if r["k"] == "call" and r.get("callee") in ("calloc", "malloc") and \
+                            (any_pos or (a.src is not None and (bid == a.src or flow.dominates(f, bid, a.src)))):
+                        return True
     return False
 
 
